@@ -35,6 +35,23 @@ def _self_reads(fnode: ast.AST) -> set[str]:
     return out
 
 
+def jacobian_identity(chk: Check, rule: str, grid: str = "grid3Scales:Grid3Scales", directions=(0,)) -> None:
+    """Jacobian == derivative of the map, reusable by the properties that integrate with this Jacobian (C09, C13)."""
+    S = chk.src
+    ex = Extractor(S, positive=POS)
+    fd = S.method(grid, "decompactify")
+    fj = S.method(grid, "compactificationDerivatives")
+    if fd is None or fj is None:
+        raise AnchorMissing(f"{grid}: decompactify / compactificationDerivatives not found")
+    chk.touch(fd.name, fj.name)
+    d, j = ex.single(fd), ex.single(fj)
+    for i in directions:
+        x = ex.sym(DIRS[i])
+        ok, how = is_zero(sp.diff(d[i], x) - j[i], chk.seed, budget_s=60, allow_numeric=(chk.tier == "quick"))
+        chk.ob(rule, fj.where(), f"{grid.split(':')[1]}: Jacobian[{i}] == d decompactify[{i}] / d {DIRS[i]} (the quadrature weight is the derivative of the map "
+               "that produced the grid points)", ok, how, key=f"jac|{grid}|{i}", how=how)
+
+
 def cache_coherence(chk: Check, rule: str = "R17.5") -> None:
     """Typestate rule shared with the properties that consume cached grid data (C09, C13, C16)."""
     S = chk.src
